@@ -142,6 +142,10 @@ func G1HashToPoint(m []byte) *bn256.G1 {
 // number. Returns 0x01 if Y is an even number and 0x00 if it's odd.
 func yParity(y *big.Int) byte {
 	arr := y.Bytes()
+	if len(arr) == 0 {
+		// y is zero, which has an empty byte representation.
+		return 0
+	}
 	return arr[len(arr)-1] & 1
 }
 
@@ -233,12 +237,16 @@ func DecompressToG2(m []byte) (*bn256.G2, error) {
 	y2.add(y2, twistB)
 	y := sqrtGfP2(y2)
 
+	if y == nil {
+		return nil, errors.New("failed to decompress G2")
+	}
+
 	// Compare calculated Y parity with the original Y parity in the top bit of
 	// the compressed point. If it doesn't match, we know `Y1 + Y2 = P`, so we
 	// recover the correct Y using bn256.P.
 	if m[0]&0x80>>7 != yParity(y.y) {
-		y.x = new(big.Int).Add(bn256.P, new(big.Int).Neg(y.x))
-		y.y = new(big.Int).Add(bn256.P, new(big.Int).Neg(y.y))
+		y.x = mod(new(big.Int).Neg(y.x), bn256.P)
+		y.y = mod(new(big.Int).Neg(y.y), bn256.P)
 	}
 
 	return G2FromInts(x, y)
@@ -268,7 +276,11 @@ func x2y(x, y *gfP2) bool {
 	return y.x.Cmp(x.x) == 0 && y.y.Cmp(x.y) == 0
 }
 
-// sqrtGfP2 returns square root of a gfP2 element.
+// hexRootOrder is the multiplicative order of hexRoot: hexRoot^16 = 1.
+const hexRootOrder = 16
+
+// sqrtGfP2 returns square root of a gfP2 element. If x is not a square,
+// function returns nil.
 func sqrtGfP2(x *gfP2) *gfP2 {
 
 	// (bn256.p^2 + 15) // 32)
@@ -276,11 +288,16 @@ func sqrtGfP2(x *gfP2) *gfP2 {
 
 	y := new(gfP2).pow(x, exp)
 
-	// Multiply y by hexRoot constant to find correct y.
-	for !x2y(x, y) {
+	// Multiply y by hexRoot constant to find correct y. Multiplying more than
+	// hexRootOrder times only repeats the candidates already tried, so when
+	// none of them matches, x has no square root.
+	for i := 0; i < hexRootOrder; i++ {
+		if x2y(x, y) {
+			return y
+		}
 		y.multiply(y, hexRoot)
 	}
-	return y
+	return nil
 }
 
 // pow returns gfP2 element to the power of the provided exponent.
